@@ -277,6 +277,14 @@ single-threaded one. Fact re-extracted from the source. -/
 theorem invalidation_is_unconditional :
     Gen.Fleet.invalidateUnconditional = true ∧ Gen.Fleet.asyncInvalidateUnconditional = true := by decide
 
+/-- The two places where the model abstracts code that is not a loop: `ensure_connected` returns the
+cached client as it is or connects once and stores the client (the `Cache` transitions of `attempt`),
+and `broadcast_json` inserts every worker's result under the name of the node the call was made to
+(`broadcast` pairs each target's name with its run). Facts re-extracted from the source. -/
+theorem slot_and_result_discipline :
+    Gen.Fleet.ensureConnectedCaches = true ∧ Gen.Fleet.asyncEnsureConnectedCaches = true ∧
+    Gen.Fleet.resultsKeyedByNode = true ∧ Gen.Fleet.asyncResultsKeyedByNode = true := by decide
+
 /-- `health_check` makes at most one contact, reports healthy iff that attempt was answered with
 success, and an unhealthy verdict never leaves a client behind (in particular not a dead one): the
 next call reconnects. -/
